@@ -21,6 +21,52 @@ func (fr *Frame) setResult(res ssa.Value, val Val) {
 }
 
 func (fr *Frame) execCall(st *State, c *ssa.CallCommon, res ssa.Value, pos token.Pos) {
+	fr.execCallInner(st, c, res, pos)
+	fr.recordResults(st, c, res)
+}
+
+// recordResults: the pointer-like results of the latest call to a tracked function (lastres(F, i)).
+func (fr *Frame) recordResults(st *State, c *ssa.CallCommon, res ssa.Value) {
+	v := fr.v
+	if res == nil || !fr.transparent || v.fc == nil || v.fc.Opts["track"] == "" {
+		return
+	}
+	var callee string
+	if c.IsInvoke() {
+		callee = c.Method.Name()
+	} else if f, ok := c.Value.(*ssa.Function); ok {
+		callee = f.Name()
+	} else {
+		return
+	}
+	tracked := false
+	for _, t := range strings.Fields(v.fc.Opts["track"]) {
+		if t == callee {
+			tracked = true
+		}
+	}
+	val, have := fr.vals[res]
+	if !tracked || !have {
+		return
+	}
+	rs := c.Signature().Results()
+	put := func(i int, x Val) {
+		if _, ok := sortIsInt(rs.At(i).Type()); ok && x.Loc == nil && x.T != "" {
+			v.setHeap(st, v.ghostKey(fmt.Sprintf("lastres!%s!%d", callee, i), "Int"), x.T)
+		}
+	}
+	if rs.Len() == 1 {
+		put(0, val)
+	} else {
+		for i := range val.Tuple {
+			if i < rs.Len() {
+				put(i, val.Tuple[i])
+			}
+		}
+	}
+}
+
+func (fr *Frame) execCallInner(st *State, c *ssa.CallCommon, res ssa.Value, pos token.Pos) {
 	v := fr.v
 	var args []Val
 	for _, a := range c.Args {
@@ -64,7 +110,7 @@ func (fr *Frame) execCall(st *State, c *ssa.CallCommon, res ssa.Value, pos token
 			return
 		}
 		fc := v.eng.contractOf(f)
-		if v.fc != nil && fr.top {
+		if v.fc != nil && fr.transparent {
 			for _, n := range strings.Fields(v.fc.Opts["abstract"]) {
 				match := n == f.Name()
 				if i := strings.LastIndex(n, "."); i >= 0 && f.Signature.Recv() != nil {
@@ -94,11 +140,25 @@ func (fr *Frame) execCall(st *State, c *ssa.CallCommon, res ssa.Value, pos token
 				}
 			}
 		}
+		if fc != nil && fc.Inline && v.fc != nil && fr.transparent {
+			// opt summary = F: this unit uses F's contract (frame, requires, ensures) instead of inlining it
+			for _, n := range strings.Fields(v.fc.Opts["summary"]) {
+				if n == f.Name() {
+					fr.applyContract(st, f, fc, c, args, res, pos)
+					return
+				}
+			}
+		}
 		if fc != nil && !fc.Inline {
 			fr.applyContract(st, f, fc, c, args, res, pos)
 			return
 		}
 		if f.Blocks != nil && v.eng.inRepo(f) && (fc != nil && fc.Inline || v.eng.inlinable(f)) && fr.depth < 4 {
+			fr.inlineCall(st, f, c, args, res)
+			return
+		}
+		if fr.owner != nil && fr.depth < 4 && v.eng.isNewHelper(f) && v.eng.inlinableHelper(f) {
+			// a helper extracted since the baseline, loops included: executed as part of this function
 			fr.inlineCall(st, f, c, args, res)
 			return
 		}
@@ -392,6 +452,22 @@ func (e *Engine) inRepo(f *ssa.Function) bool {
 	return f.Pkg != nil && strings.HasPrefix(f.Pkg.Pkg.Path(), "github.com/tokenized/spynode")
 }
 
+// inlinableHelper: like inlinable, loops allowed (their invariants come from the caller's contract).
+func (e *Engine) inlinableHelper(f *ssa.Function) bool {
+	if f.Blocks == nil || len(f.Blocks) > 150 {
+		return false
+	}
+	for _, b := range f.Blocks {
+		for _, in := range b.Instrs {
+			switch in.(type) {
+			case *ssa.Go, *ssa.MakeClosure:
+				return false
+			}
+		}
+	}
+	return true
+}
+
 // inlinable: small, loop-free helper in the repository.
 func (e *Engine) inlinable(f *ssa.Function) bool {
 	if f.Blocks == nil || len(f.Blocks) > 150 {
@@ -564,6 +640,20 @@ func (fr *Frame) inlineCall(st *State, f *ssa.Function, c *ssa.CallCommon, args 
 	saved := st.defers
 	st.defers = nil
 	sub.entry = st.clone()
+	if sub.fc != nil {
+		sub.owner = sub
+	}
+	if fr.owner != nil && sub.fc == nil && v.eng.isNewHelper(f) {
+		sub.transparent = fr.transparent
+		sub.owner = fr.owner
+		sub.entry = fr.entry // old() keeps meaning the entry of the function whose contract speaks
+		if call, ok := res.(*ssa.Call); ok {
+			if base, ok := fr.callBase[call]; ok {
+				sub.loopBase = base
+			}
+		}
+		v.smt.note("helper " + f.Name() + " (not in the baseline, no contract) is executed as part of " + v.fn.Name())
+	}
 	sub.run(st.clone(), bound)
 	if len(sub.exits) == 0 {
 		// callee never returns (panics): path ends
@@ -687,11 +777,17 @@ func (v *FnVerifier) checkEnsures(fr *Frame, st *State, res []Val, pos token.Pos
 	for k, en := range v.fc.Ensures {
 		if en.AfterLoop > 0 {
 			// only the returns reached through that loop (the names of its region are in scope there)
-			through := false
+			through, own := false, false
 			for _, li := range fr.loops {
-				if li.ordinal == en.AfterLoop-1 && li.header.Dominates(blk) {
-					through = true
+				if li.ordinal == en.AfterLoop-1 {
+					own = true
+					if li.header.Dominates(blk) {
+						through = true
+					}
 				}
+			}
+			if !own && retNo == 1 {
+				v.errs = append(v.errs, fmt.Sprintf("ensures %s afterloop %d: that loop is not a loop of the function itself any more", en.Label, en.AfterLoop-1))
 			}
 			if !through {
 				continue
@@ -828,7 +924,7 @@ func (fr *Frame) checkGuardedMap(st *State, m ssa.Value, pos token.Pos) {
 
 func (fr *Frame) siteAssertsCall(st *State, c *ssa.CallCommon, args []Val, pos token.Pos) {
 	v := fr.v
-	if v.fc == nil || !fr.top || len(v.fc.Asserts) == 0 {
+	if v.fc == nil || !fr.transparent || len(v.fc.Asserts) == 0 {
 		return
 	}
 	var callee string
@@ -848,9 +944,14 @@ func (fr *Frame) siteAssertsCall(st *State, c *ssa.CallCommon, args []Val, pos t
 			// call F loop N: only the call sites inside loop N
 			n, err := strconv.Atoi(w[3])
 			inside := false
-			for _, li := range fr.loops {
-				if err == nil && li.ordinal == n && li.inLoop[fr.curBlock] {
-					inside = true
+			for f := fr; f != nil; f = f.parent {
+				for _, li := range f.loops {
+					if err == nil && li.ordinal == n && li.inLoop[f.curBlock] {
+						inside = true
+					}
+				}
+				if !f.transparent || f.top {
+					break
 				}
 			}
 			if !inside {
@@ -932,10 +1033,23 @@ func (fr *Frame) siteAssertsCall(st *State, c *ssa.CallCommon, args []Val, pos t
 
 func (fr *Frame) siteAsserts(st *State, kind string, addr ssa.Value, args []Val, pos token.Pos) {
 	v := fr.v
-	if v.fc == nil || !fr.top || len(v.fc.Asserts) == 0 {
+	if v.fc == nil || !fr.transparent || len(v.fc.Asserts) == 0 {
 		return
 	}
 	fa, ok := addr.(*ssa.FieldAddr)
+	var elemIdx, elemVal *specVal
+	if ia, isElem := addr.(*ssa.IndexAddr); isElem && kind == "store" && len(args) == 1 {
+		// x.F[i] = v : "at elemstore F", with idx and v bound
+		if ld, isLoad := ia.X.(*ssa.UnOp); isLoad && ld.Op == token.MUL {
+			if fa2, ok2 := ld.X.(*ssa.FieldAddr); ok2 {
+				if sl, isSlice := ia.X.Type().Underlying().(*types.Slice); isSlice {
+					fa, ok, kind = fa2, true, "elemstore"
+					elemIdx = &specVal{t: fr.term(st, ia.Index), typ: types.Typ[types.Int], st: st}
+					elemVal = &specVal{t: args[0].T, typ: sl.Elem(), st: st}
+				}
+			}
+		}
+	}
 	if !ok {
 		return
 	}
@@ -946,10 +1060,32 @@ func (fr *Frame) siteAsserts(st *State, kind string, addr ssa.Value, args []Val,
 	fname := sT.Field(fa.Field).Name()
 	for _, as := range v.fc.Asserts {
 		w := strings.Fields(as.Site)
-		if len(w) != 2 || w[0] != kind || w[1] != fname {
+		if !(len(w) == 2 || len(w) == 4 && w[2] == "loop") || w[0] != kind || w[1] != fname {
 			continue
 		}
+		if len(w) == 4 {
+			n, err := strconv.Atoi(w[3])
+			inside := false
+			for f := fr; f != nil; f = f.parent {
+				for _, li := range f.loops {
+					if err == nil && li.ordinal == n && li.inLoop[f.curBlock] {
+						inside = true
+					}
+				}
+				if !f.transparent || f.top {
+					break
+				}
+			}
+			if !inside {
+				continue
+			}
+		}
 		env := fr.specEnv(st, nil)
+		env.retBlock = fr.curBlock
+		env.atSite = true
+		if elemIdx != nil {
+			env = env.bind("idx", *elemIdx).bind("v", *elemVal)
+		}
 		g, extra := env.boolTerm(as.Cl.Expr)
 		v.siteCount["assert."+as.Label]++
 		o := v.addObl(st, "assert", fmt.Sprintf("%s#%d", as.Label, v.siteCount["assert."+as.Label]), g, as.Cl.Text, pickProps(as.Cl, v.fc.Serves), pos)
@@ -1040,7 +1176,7 @@ func (fr *Frame) chanMsgInv(st *State, elem types.Type, val string, send bool, p
 	env = env.bind("v", specVal{t: val, typ: elem, st: st})
 	g, extra := env.boolTerm(tc.Sent.Expr)
 	if send {
-		if fr.top {
+		if fr.transparent {
 			o := v.addObl(st, "chanmsg", n.Obj().Name(), g, "sent "+tc.Sent.Text, fr.propsOf(), pos)
 			o.Extra = extra
 		}
@@ -1051,9 +1187,26 @@ func (fr *Frame) chanMsgInv(st *State, elem types.Type, val string, send bool, p
 }
 
 func (fr *Frame) execSend(st *State, x *ssa.Send) {
-	fr.chanMsgInv(st, x.Chan.Type().Underlying().(*types.Chan).Elem(), fr.term(st, x.X), true, x.Pos())
+	et := x.Chan.Type().Underlying().(*types.Chan).Elem()
+	fr.chanMsgInv(st, et, fr.term(st, x.X), true, x.Pos())
 	fr.v.smt.note("channel send: no effect on the modelled state (delivery is outside sequential reasoning)")
-	fr.siteAssertsNamed(st, "send", x.Pos())
+	fr.siteAssertsSend(st, et, fr.term(st, x.X), "true", x.Pos())
+}
+
+// siteAssertsSend: "assert L at send" with the value being sent bound to v; afterwards (units with
+// `opt trackhandover`) the object is recorded as handed over to whoever receives from the channel.
+func (fr *Frame) siteAssertsSend(st *State, et types.Type, val, chosen string, pos token.Pos) {
+	v := fr.v
+	fr.sendVal = &specVal{t: val, typ: et, st: st}
+	fr.siteAssertsNamed(st, "send", pos)
+	fr.sendVal = nil
+	if v.fc != nil && v.fc.Opts["trackhandover"] != "" {
+		if _, isInt := sortIsInt(et); isInt {
+			k := v.ghostKey("handed", "(Array Int Bool)")
+			H := v.heap(st, k)
+			v.setHeap(st, k, ite(chosen, sto(H, val, "true"), H))
+		}
+	}
 }
 
 func (fr *Frame) execSelect(st *State, x *ssa.Select) {
@@ -1080,11 +1233,11 @@ func (fr *Frame) execSelect(st *State, x *ssa.Select) {
 			fr.countRecv(st, fr.term(st, sc.Chan), fmt.Sprintf("(= %s %d)", idx, i))
 		}
 	}
-	for _, sc := range x.States {
+	for i, sc := range x.States {
 		if sc.Dir == types.SendOnly {
 			t := sc.Chan.Type().Underlying().(*types.Chan).Elem()
 			fr.chanMsgInv(st, t, fr.term(st, sc.Send), true, x.Pos())
-			fr.siteAssertsNamed(st, "send", x.Pos())
+			fr.siteAssertsSend(st, t, fr.term(st, sc.Send), fmt.Sprintf("(= %s %d)", idx, i), x.Pos())
 		}
 	}
 	v.smt.note("select: nondeterministic choice among the cases; received values unconstrained")
@@ -1095,7 +1248,7 @@ func (fr *Frame) execSelect(st *State, x *ssa.Select) {
 // (calls made by the function under contract itself, not by its callees).
 func (fr *Frame) countCall(st *State, c *ssa.CallCommon) {
 	v := fr.v
-	if !fr.top || v.fc == nil || v.fc.Opts["track"] == "" {
+	if !fr.transparent || v.fc == nil || v.fc.Opts["track"] == "" {
 		return
 	}
 	var callee string
@@ -1133,7 +1286,7 @@ func (fr *Frame) countRecv(st *State, ch, cond string) {
 // siteAssertsNamed: site assertions of the form "at <kind>" without a callee (e.g. "at send").
 func (fr *Frame) siteAssertsNamed(st *State, kind string, pos token.Pos) {
 	v := fr.v
-	if v.fc == nil || !fr.top {
+	if v.fc == nil || !fr.transparent {
 		return
 	}
 	for _, as := range v.fc.Asserts {
@@ -1143,6 +1296,9 @@ func (fr *Frame) siteAssertsNamed(st *State, kind string, pos token.Pos) {
 		env := fr.specEnv(st, nil)
 		env.retBlock = fr.curBlock
 		env.atSite = true
+		if fr.sendVal != nil {
+			env = env.bind("v", *fr.sendVal)
+		}
 		g, extra := env.boolTerm(as.Cl.Expr)
 		v.siteCount["assert."+as.Label]++
 		o := v.addObl(st, "assert", fmt.Sprintf("%s#%d", as.Label, v.siteCount["assert."+as.Label]), g, as.Cl.Text, pickProps(as.Cl, v.fc.Serves), pos)
